@@ -41,7 +41,7 @@ ASSUMPTIONS = ["ChaCha20-Poly1305 in ipv8_rust_tunnels is trusted (the oracle pe
 REACH = ["delivered_forward", "delivered_backward", "layer_checked_forward", "layer_checked_backward", "hops:1", "hops:2",
          "hops:3", "fault:flip", "fault:cid", "fault:splice", "fault:inject", "fault:flag", "fault:plain_data", "tampered_dropped",
          "speedtest_ok", "e2e_linked", "e2e_delivered", "e2e_reader_checked", "sent_from_ready_callback", "plain_reader_checked",
-         "e2e_ipv8_shaped_payload", "fault:reflect", "outside_answer_during_removal_grace_period"]
+         "e2e_ipv8_shaped_payload", "fault:reflect", "outside_answer_during_removal_grace_period", "nested_data_message_from_outside"]
 
 SIZES = [2, 3, 10, 22, 23, 24, 64, 100, 279, 500, 1000, 1399, 1400]
 
@@ -525,6 +525,18 @@ def execute(case: dict) -> dict:  # noqa: C901, PLR0915
             except (asyncio.TimeoutError, Exception):  # noqa: BLE001
                 world.probe("speedtest_failed")
         await asyncio.sleep(9.0)     # covers a ping round
+        srcs0 = sorted({src for _t, _d, src in w.received})
+        if srcs0 and circ.state == "READY":
+            # the outside host answers with a datagram that LOOKS like a data message of the tunnel overlay itself, naming the circuit
+            # (its id is in the clear in every cell header) and carrying made-up content and origin: it holds no session key
+            from ipv8.messaging.serialization import Serializer
+            ser = Serializer()
+            nested = o.ov.get_prefix() + b"\x01" + circ.circuit_id.to_bytes(4, "big") + ser.pack("address", ("0.0.0.0", 0)) + \
+                ser.pack("address", ("6.6.6.6", 66)) + b"d" + b"NESTEDEVIL" + rng.randbytes(4).hex().encode() + b"e"
+            for src in srcs0:
+                w.transport.sendto(nested, src)
+            world.probe("nested_data_message_from_outside")
+            await asyncio.sleep(1.0)
         if case.get("exit_removes"):
             # the exit gives its side up on its own (as its sweep does for an old circuit) and the outside host answers once more
             # during the removal grace period: whatever still travels back must travel encrypted
